@@ -39,7 +39,8 @@ enum Flavour {
     Votes,
     /// RWA wrapper, gates open; only the holder-initiated moves (transfer, transfer_from, approve)
     Rwa,
-    Vault,
+    /// fungible-vault example with this decimals offset
+    Vault(u32),
 }
 
 #[derive(Clone, Debug, PartialEq, Eq)]
@@ -208,9 +209,9 @@ impl World for Tok {
                 call_mocked(&e, &c, "transfer", (u[0].clone(), u[1].clone(), 3i128).into_val(&e)).expect("seed transfer");
                 c
             }
-            Flavour::Vault => {
+            Flavour::Vault(off) => {
                 let a = e.register(tokens::BaseTok, ());
-                let v = e.register(vault_example::ExampleContract, (name, sym, a.clone(), 0u32));
+                let v = e.register(vault_example::ExampleContract, (name, sym, a.clone(), off));
                 for k in 0..N {
                     call_mocked(&e, &a, "mint", (u[k].clone(), 6i128).into_val(&e)).expect("asset mint");
                 }
@@ -242,7 +243,7 @@ impl World for Tok {
             out
         };
         let o = &m.obs;
-        let vault = self.flavour == Flavour::Vault;
+        let vault = matches!(self.flavour, Flavour::Vault(_));
         let mut v = vec![];
         for (ow, s) in &pairs {
             for a in if th { vec![0, 1, 3, i128::MAX] } else { vec![0, 3, i128::MAX] } {
@@ -532,10 +533,10 @@ fn main() {
         "level-BFS over histories of approve(owner,spender,amount,live_until in {0,now-1,now,now+1,now+3,max,max+1}) / transfer / transfer_from / burn / burn_from / vault withdraw,redeem,deposit by operator / advance(1|3|20) on 3 accounts + bystander; every accepted call: demanded principals = the one the statement names, re-run under enforcing auth from the rebuilt pre-state with full set / each principal dropped / bystander signing; logical allowance (amount, live_until) model compared with allowance() for all pairs after every step and after every ledger advance",
         |tier: Tier, r: &mut Runner| {
             let th = tier == Tier::Thorough;
-            for fl in [Flavour::Base, Flavour::AllowList, Flavour::BlockList, Flavour::Votes, Flavour::Rwa, Flavour::Vault] {
+            for fl in [Flavour::Base, Flavour::AllowList, Flavour::BlockList, Flavour::Votes, Flavour::Rwa, Flavour::Vault(0), Flavour::Vault(2)] {
                 // quick: depth 3 for the Base and RWA code paths, depth 2 (complete) for the others
                 let d = match fl {
-                    Flavour::Vault => tier.pick(2, 3),
+                    Flavour::Vault(_) => tier.pick(2, 3),
                     Flavour::Base | Flavour::Rwa => tier.pick(3, 4),
                     _ => tier.pick(2, 4),
                 };
